@@ -476,7 +476,7 @@ func recordBus(env *core.Env, emit func(map[string]any)) (*core.Summary, error) 
 		for k, v := range env.Opts {
 			opts = append(opts, k+"="+v)
 		}
-		opts = append(opts, fmt.Sprintf("t=%d", t), "sum="+sp)
+		opts = append(opts, fmt.Sprintf("t=%d", t), "sum="+sp, "workdir="+tmp)
 		cmd := exec.Command(exe, "busworker", "--out", evp, "--prop", env.Prop, "--seed", fmt.Sprint(env.Seed), "--opt", strings.Join(opts, ","))
 		var stderr bytes.Buffer
 		cmd.Stderr = &stderr
@@ -633,7 +633,8 @@ func busTrace(env *core.Env, t int, emit func(map[string]any)) (nontrivial bool,
 	if !ok {
 		return false, 0, nil, fmt.Errorf("unknown configuration %q", cfgNames[t%len(cfgNames)])
 	}
-	dir, err := os.MkdirTemp("", "vh-ss-bus-")
+	// inside the directory the parent recorder removes, so that nothing is left behind by a crash
+	dir, err := os.MkdirTemp(env.Opt("workdir", ""), "vh-ss-bus-")
 	if err != nil {
 		return false, 0, nil, err
 	}
